@@ -1,7 +1,7 @@
 SPECIFICATION EmitSpec
 CONSTANTS
   L = {"a", "b"}
-  ParamKinds = {"st2b"}
+  ParamKinds = {"st2b", "st2w"}
   RetKinds = {"ropq"}
   SelfKinds = {"none", "sf2b"}
   NParams = {2}
